@@ -23,7 +23,12 @@ MANIFEST_ENTRY = {
             "spectral core shared with C16). The model is tied to the code on every run by Float correspondence through the public "
             "surface (obj_model.obj / apply_hard_constraints, probe_model.probe, _apply_weights, set_initial_probe / initial_probe, "
             "a real preprocessed Ptychography object with the library's own FOV mask; tolerance rule; 4-ulp comparison on a dyadic "
-            "Hadamard-mixture stream for Gram-Schmidt) and the property predicate is evaluated on the real outputs.",
+            "Hadamard-mixture stream for Gram-Schmidt) and the property predicate is evaluated on the real outputs. Histories: the "
+            "constraints dictionary of BaseConstraints is modelled as a dict state machine (add_constraint / constraints setter / "
+            "Ptychography-style per-entry installation; theorems: add_constraint assigns exactly one entry, last writer wins for every "
+            "history) and driven through those public paths before the object is read, with the predicate evaluated against the "
+            "REQUESTED constraints; set_initial_probe is called 2-4 times on one probe model with different mean intensities "
+            "(theorems: requested weights never written, every re-initialisation exact), predicate after every call and after reset().",
     "note": "Trusted: Lean kernel + propext/Classical.choice/Quot.sound; hand model validated by sampled correspondence only; "
             "IEEE rounding, torch abs/angle/exp/fft2/argsort are modelled not verified. Parseval for the model's O(N^2) dft2 is "
             "imported from Lemmas/PtychoOpsForward.lean (PtychoOps.energy_dft2, built by the C16 check). "
@@ -35,7 +40,8 @@ MANIFEST_ENTRY = {
 }
 RULE = ("one case = one constrained read of a model built from generated raw parameters; distinct non-trivial = distinct "
         "(stream, precision, object type / mode count, mask kind, apply_fov_mask, identical_slices, slice-count>1, "
-        "baseline/positivity flags, correlation bucket, weights kind) with a non-constant raw array")
+        "baseline/positivity flags, correlation bucket, weights kind) with a non-constant raw array; for the history streams "
+        "(op-kind prefix of the constraint history / number of set_initial_probe calls, read-back, reset)")
 TRUSTED = ["torch.abs / angle / exp / clamp / mean / sum / sqrt / fft2(norm='ortho') / argsort(descending) semantics (modelled)",
            "numpy abs / vdot / fft2 as the independent oracle of the predicate"]
 ASSUMPTIONS = [
@@ -688,11 +694,260 @@ def run_pipeline(ctx, drv, case):
         om.params.data = torch.tensor(raw, dtype=om.params.dtype)
     cons = {"apply_fov_mask": bool(case["fov"]), "identical_slices": False, "positivity": bool(case["positivity"]),
             "fix_potential_baseline": False, "fix_potential_baseline_factor": 1.0}
-    om.constraints = cons
+    p.constraints = {"object": dict(cons)}      # the real Ptychography setter: one add_constraint per entry
     mk = np.real(om.mask.detach().numpy())
     ctx.stat_max("pipeline:fov_mask_max", float(mk.max()))
     ctx.extra["pipeline_fov_mask_min_seen"] = min(ctx.extra.get("pipeline_fov_mask_min_seen", 1.0), float(mk.min()))
     check_object(ctx, drv, case, om, raw, cons, "obj", "pipeline")
+
+
+# --------------------------------------------------------------------------------------
+# histories: the constraints dictionary driven through its public mutation paths, repeated set_initial_probe
+CONS_KEYS_REL = ["identical_slices", "apply_fov_mask", "positivity", "fix_potential_baseline", "fix_potential_baseline_factor"]
+
+
+def gen_cons_value(rng, k):
+    if k == "fix_potential_baseline_factor":
+        return rng.choice([1.0, 0.5, 2.0, 1.25])
+    if k in ("tv_weight_xy", "tv_weight_z", "surface_zero_weight"):
+        return rng.choice([0, 0.0, 0.5, 1e-3])
+    if k in ("gaussian_sigma", "q_lowpass", "q_highpass"):
+        return None          # smoothing filters stay off (quantifier)
+    if k == "butterworth_order":
+        return rng.choice([2, 4])
+    if k == "bogus_key":
+        return True
+    return rng.chance(0.6)
+
+
+def gen_cons_history_case(rng, prec):
+    t = rng.choice(["complex", "pure_phase", "potential"])
+    S = rng.randint(2, 3)
+    H = rng.randint(1, 4)
+    W = rng.randint(2, 4)
+    n = S * H * W
+    if t == "potential":
+        raw = np.array([gauss(rng) for _ in range(n)])
+    else:
+        raw = np.array([rng.uniform(0.0, 2.0) for _ in range(n)]) * np.exp(1j * np.array([rng.uniform(-3.0, 3.0) for _ in range(n)]))
+    mask = gen_mask(rng, S, H, W)
+    allk = CONS_KEYS_REL * 3 + ["tv_weight_xy", "tv_weight_z", "surface_zero_weight", "gaussian_sigma", "q_lowpass", "butterworth_order"]
+    ops = []
+    for _ in range(rng.randint(2, 6)):
+        kind = rng.weighted([("add", 5), ("set", 3), ("ptycho", 3), ("add_bad", 1), ("set_bad", 1)])
+        if kind == "add":
+            k = rng.choice(allk)
+            ops.append({"op": "add", "k": k, "v": gen_cons_value(rng, k)})
+        elif kind == "add_bad":
+            ops.append({"op": "add", "k": "bogus_key", "v": True})
+        else:
+            ks = rng.sample(sorted(set(allk)), rng.randint(1, 4))
+            if kind == "set_bad":
+                ks.insert(rng.randint(0, len(ks)), "bogus_key")
+            items = [[k, gen_cons_value(rng, k)] for k in ks]
+            ops.append({"op": "set" if kind != "ptycho" else "ptycho", "items": items})
+    # make the seeded kind of history frequent: a property-relevant request that is not the last one
+    if rng.chance(0.5):
+        ops.insert(0, {"op": "add", "k": "identical_slices", "v": True})
+    raw = rnd(raw, prec)
+    return {"stream": "cons_history", "prec": prec, "type": t, "shape": [S, H, W], "ops": ops,
+            "raw": cx_to_list(raw) if t != "potential" else [float(x) for x in raw],
+            "mask": {"shape": list(mask.shape), "v": [float(x) for x in rnd(mask, prec).ravel()]}}
+
+
+def canon_val(v):
+    if isinstance(v, bool):
+        return ["b", v]
+    if v is None:
+        return ["z"]
+    if isinstance(v, (int, float)):
+        return ["n", float(v)]
+    return ["o", repr(v)]
+
+
+def canon_dict(items):
+    return [[k, canon_val(v)] for k, v in items]
+
+
+def run_cons_history(ctx, drv, case):
+    from quantem.diffractive_imaging.object_models import ObjectPixelated
+    prec, t = case["prec"], case["type"]
+    S, H, W = case["shape"]
+    set_prec(prec)
+    raw = (cx_from_list(case["raw"], (S, H, W)) if t != "potential" else np.array(case["raw"], dtype=np.float64).reshape(S, H, W))
+    mask = np.array(case["mask"]["v"], dtype=np.float64).reshape(case["mask"]["shape"])
+    om = ObjectPixelated.from_array(raw, slice_thicknesses=1.0, obj_type=t)
+    om._initialize_obj((S, H, W), (1.0, 1.0))
+    om.mask = mask
+    defaults = dict(ObjectPixelated.DEFAULT_CONSTRAINTS)
+    allowed = list(defaults.keys())
+    init_items = list(om.constraints.items())
+    ref = dict(init_items)                      # independent oracle: last writer wins over the defaults
+    lean_ops, impl_res, ref_res = [], [], []
+    for op in case["ops"]:
+        if op["op"] == "add":
+            lean_ops.append({"op": "add", "k": op["k"], "v": op["v"]})
+            try:
+                om.add_constraint(op["k"], op["v"])
+                r = "ok"
+            except KeyError:
+                r = "KeyError"
+            if op["k"] in defaults:
+                ref[op["k"]] = op["v"]
+                ref_res.append("ok")
+            else:
+                ref_res.append("KeyError")
+        else:
+            items = [(k, v) for k, v in op["items"]]
+            if op["op"] == "set":
+                lean_ops.append({"op": "set", "items": [[k, v] for k, v in items]})
+                try:
+                    om.constraints = dict(items)
+                    r = "ok"
+                except KeyError:
+                    r = "KeyError"
+                rr = "ok"
+                for k, v in items:
+                    if k not in defaults:
+                        rr = "KeyError"
+                        break
+                    ref[k] = v
+                ref_res.append(rr)
+            else:   # PtychographyBase.constraints setter: one add_constraint per entry, stops at the first KeyError
+                r = "ok"
+                rr = "ok"
+                sub = []
+                for k, v in items:
+                    sub.append({"op": "add", "k": k, "v": v})
+                    try:
+                        om.add_constraint(k, v)
+                    except KeyError:
+                        r = "KeyError"
+                        break
+                for k, v in items:
+                    if k not in defaults:
+                        rr = "KeyError"
+                        break
+                    ref[k] = v
+                # the model sees the same per-entry adds up to and including the failing one
+                stop = len(sub)
+                lean_ops.extend(sub[:stop])
+                ref_res.append(rr)
+                impl_res.append((r, canon_dict(om.constraints.items()), len(sub)))
+                continue
+        impl_res.append((r, canon_dict(om.constraints.items()), 1))
+    rep = drv.ask({"op": "cons_history", "allowed": allowed, "init": [[k, v] for k, v in init_items], "ops": lean_ops})
+    ctx.count()
+    ctx.dist[f"cons_history:ops={len(case['ops'])}"] += 1
+    for op in case["ops"]:
+        ctx.dist[f"cons_history:op={op['op']}"] += 1
+    ctx.mark(("cons_history", prec, t, tuple(o["op"] for o in case["ops"])[:4]))
+    if "ok" not in rep:
+        ctx.disagree("cons_history", small(case), rep, "ok", "driver error")
+    else:
+        outs = rep["ok"]
+        pos = 0
+        for i, (r, d, cnt) in enumerate(impl_res):
+            pos += cnt
+            mo = outs[pos - 1]
+            md = canon_dict((k, v) for k, v in mo["d"])
+            # a ptycho-style op is "ok" iff every one of its per-entry adds was ok
+            mr = "ok" if all(outs[j]["r"] == "ok" for j in range(pos - cnt, pos)) else "KeyError"
+            if r != mr or d != md:
+                ctx.disagree("cons_history", small(case), {"r": mr, "d": md}, {"r": r, "d": d}, f"constraints dict after op {i}")
+                break
+            if r != ref_res[i]:
+                ctx.disagree("cons_history-oracle", small(case), ref_res[i], r, f"error kind at op {i}")
+                break
+    if canon_dict(om.constraints.items()) != canon_dict(ref.items()):
+        # the requested constraints are not what the model holds: the predicate below (evaluated against the REQUEST) decides
+        ctx.dist["cons_history:state_differs_from_request"] += 1
+    cons = {k: ref[k] for k in CONS_KEYS_REL}
+    check_object(ctx, drv, case, om, raw, cons, "obj", "cons_history")
+
+
+def gen_probe_history_case(rng, prec):
+    n = rng.weighted([(1, 1), (2, 4), (3, 4), (4, 2)])
+    H = rng.randint(2, 5)
+    W = rng.randint(2, 5)
+    wk = rng.weighted([("default", 2), ("random", 4), ("unnormalised", 3)])
+    if wk == "default":
+        w = None
+    elif wk == "random":
+        w = [rng.uniform(0.05, 1.0) for _ in range(n)]
+        w = [x / sum(w) for x in w]
+    else:
+        w = [float(rng.randint(1, 9)) for _ in range(n)]
+    stack = np.array([cgauss(rng, H * W) * 10.0 ** rng.uniform(-1, 1) for _ in range(n)])
+    return {"stream": "probe_history", "prec": prec, "n": n, "roi": [H, W], "wkind": wk, "w": w,
+            "Ms": [10.0 ** rng.uniform(-1, 5) for _ in range(rng.randint(2, 4))], "seed": rng.below(1 << 30),
+            "read_back": rng.chance(0.5), "reset": rng.chance(0.5), "stack": cx_to_list(rnd(stack, prec))}
+
+
+def probe_intensity_predicate(ctx, case, arr, M, wreq, label, wtol):
+    mode_I = np.sum(np.abs(np.fft.fft2(arr, norm="ortho")) ** 2, axis=(1, 2))
+    tot = float(mode_I.sum())
+    ctx.stat_max(f"probe_history:{case['prec']}:rel_total_intensity_error", abs(tot - M) / M)
+    if abs(tot - M) > wtol * M:
+        ctx.pred_fail(f"initial-probe-total-intensity:history:{label}", "total diffraction intensity of the (re-)initialised probe "
+                      "differs from the mean intensity of that call", small(case), tot, M)
+    dw = float(np.max(np.abs(mode_I / M - wreq)))
+    if dw > wtol:
+        ctx.pred_fail(f"initial-probe-weights:history:{label}", "relative mode intensities of the (re-)initialised probe differ from "
+                      "the requested weights", small(case), (mode_I / M).tolist(), wreq.tolist())
+
+
+def run_probe_history(ctx, drv, case):
+    import torch
+    prec = case["prec"]
+    set_prec(prec)
+    n = case["n"]
+    H, W = case["roi"]
+    w = case["w"]
+    cd = torch.complex64 if prec == "f32" else torch.complex128
+    stack = cx_from_list(case["stack"], (n, H, W))
+    pm = make_probe(stack, prec, False, rng=case["seed"], initial_probe_weights=w)
+    twin = make_probe(stack, prec, False, rng=case["seed"], initial_probe_weights=w)
+    wreq = (np.array([1 - 0.02 * (n - 1)] + [0.02] * (n - 1)) if w is None else np.array(w, dtype=np.float64) / float(np.sum(w)))
+    w0 = pm.initial_probe_weights.detach().clone().numpy().astype(np.float64)
+    wtol = max(PTOL[prec], 2e-6)
+    recip = np.array([0.05, 0.05])
+    steps, impl_stacks = [], []
+    ctx.count()
+    ctx.dist[f"probe_history:{prec}:n={n}:calls={len(case['Ms'])}"] += 1
+    ctx.dist[f"probe_history:w={case['wkind']}"] += 1
+    ctx.mark(("probe_history", prec, n, len(case["Ms"]), case["wkind"], case["read_back"], case["reset"]))
+    ctx.sample({k: case[k] for k in case if k != "stack"})
+    for i, M in enumerate(case["Ms"]):
+        ramps = twin._apply_random_phase_shifts(torch.ones((n, H, W), dtype=cd)).detach().numpy().astype(np.complex128)
+        pm.set_initial_probe((H, W), recip, float(M))
+        ip = pm.initial_probe.detach().numpy().astype(np.complex128)
+        impl_stacks.append(ip)
+        steps.append({"M": bits([M])[0], "ramps": [[enc_cx_row(r) for r in p] for p in ramps]})
+        label = "first-call" if i == 0 else "repeated-call"
+        probe_intensity_predicate(ctx, case, ip, float(M), wreq, label, wtol)
+        if case["read_back"]:
+            wi = pm.initial_probe_weights.detach().numpy().astype(np.float64)
+            if float(np.max(np.abs(wi - w0))) > 0:
+                ctx.disagree("probe_history-weights", small(case), w0.tolist(), wi.tolist(), f"stored requested weights changed after call {i}")
+    if case["reset"]:
+        pm.reset()
+        probe_intensity_predicate(ctx, case, pm._probe.detach().numpy().astype(np.complex128), float(case["Ms"][-1]), wreq,
+                                  "after-reset", wtol)
+    rep = drv.ask({"op": "probe_history", "w": bits(w0), "stack": [[enc_cx_row(r) for r in p] for p in stack], "steps": steps})
+    if "ok" not in rep:
+        ctx.disagree("probe_history", small(case), rep, "ok", "driver error")
+        return
+    for i, st in enumerate(rep["ok"]["steps"]):
+        model = np.array([[dec_cx_row(r) for r in p] for p in st["stack"]])
+        ok, d = close(impl_stacks[i], model, TOL[prec])
+        ctx.stat_max(f"probe_history:{prec}:max_rel_dist", d)
+        if not ok:
+            ctx.disagree("probe_history", small(case), cx_to_list(model), cx_to_list(impl_stacks[i]), f"initial probe after call {i}: rel dist {d:.3g}")
+            break
+    wfin = pm.initial_probe_weights.detach().numpy().astype(np.float64)
+    if not np.array_equal(dec_real(rep["ok"]["w"]), wfin):
+        ctx.disagree("probe_history-weights", small(case), dec_real(rep["ok"]["w"]).tolist(), wfin.tolist(), "stored requested weights after the history")
 
 
 RUNNERS = {"object": run_object, "tomo": run_tomo, "gs": run_gs, "gs_exact": run_gs, "weights": run_weights}
@@ -738,6 +993,8 @@ def run_gs_clamp(ctx, drv, case):
 
 RUNNERS["gs_clamp"] = run_gs_clamp
 RUNNERS["pipeline"] = run_pipeline
+RUNNERS["cons_history"] = run_cons_history
+RUNNERS["probe_history"] = run_probe_history
 
 
 def run(ctx):
@@ -750,7 +1007,8 @@ def run(ctx):
             run_object(ctx, drv, CEX_CASE)
             run_gs_clamp(ctx, drv, CLAMP_CASE)
         plan = [("object", ctx.n(260, 20000)), ("tomo", ctx.n(30, 1000)), ("gs", ctx.n(110, 8000)),
-                ("gs_exact", ctx.n(60, 5000)), ("weights", ctx.n(90, 6000)), ("pipeline", ctx.n(8, 60))]
+                ("gs_exact", ctx.n(60, 5000)), ("weights", ctx.n(90, 6000)), ("pipeline", ctx.n(8, 60)),
+                ("cons_history", ctx.n(80, 3000)), ("probe_history", ctx.n(50, 2000))]
         idx = 0
         for stream, cnt in plan:
             for _ in range(cnt):
@@ -767,8 +1025,12 @@ def run(ctx):
                     case = gen_gs_exact_case(rng)
                 elif stream == "weights":
                     case = gen_weights_case(rng, prec)
-                else:
+                elif stream == "pipeline":
                     case = gen_pipeline_case(rng)
+                elif stream == "cons_history":
+                    case = gen_cons_history_case(rng, prec)
+                else:
+                    case = gen_probe_history_case(rng, prec)
                 RUNNERS[stream](ctx, drv, case)
     finally:
         drv.close()
